@@ -14,13 +14,19 @@
 (*     images against `exp`.                                               *)
 (*                                                                         *)
 (* Abstract state                                                          *)
-(*   files : Name -> [blob, bit, baked, vis]                               *)
+(*   files : Name -> [blob, bit, baked, vis, alias]                        *)
 (*           bit: a boot info table is maintained in bytes 8..63;          *)
 (*           baked: the content went through a reopen while patched, its   *)
 (*           original bytes 8..63 no longer exist anywhere;                *)
 (*           vis = "all" (every namespace) or                              *)
 (*           "sec" (ISO9660/Rock Ridge name removed by rm_hard_link, the   *)
-(*           Joliet/UDF names, if the configuration has any, remain)       *)
+(*           Joliet/UDF names, if the configuration has any, remain);      *)
+(*           alias: the content has a second ISO9660 (+Rock Ridge) name,   *)
+(*           made by add_hard_link(iso_old_path, iso_new_path): one more   *)
+(*           directory record of the same inode.  A record of `files` is   *)
+(*           therefore a link class: all its names share blob, boot info   *)
+(*           table and baked-ness by construction.  rm_file on any name    *)
+(*           removes the class; rm_hard_link removes one name.             *)
 (*   dirs  : set of (empty) directories - they only move extents           *)
 (*   elt   : [on, platform, cat, entries]  entries[1] = initial entry      *)
 (*   hyb   : [on, entry, offset, ptype, sectors, heads, idk, efi, mac]     *)
@@ -85,18 +91,24 @@ PlainBit == BS("noemul", 0, TRUE, TRUE, FALSE, 0, 0)
 
 AF(n, b) == [a |-> "AddFile", n |-> n, blob |-> b]
 AE(f, spec) == [a |-> "AddEltorito", f |-> f, spec |-> spec]
+AL(n) == [a |-> "AddLink", n |-> n]
 
 \* the canned set-up of the hybrid profiles: BIOS boot file I, Mac image M and EFI image E of
 \* different sizes; the Mac section is added FIRST and M sorts after E (so that catalog order and
 \* name order of the two EFI-platform sections differ) in "ME", the other way round in "EM".
-HybPrefix(order, efi, mac) ==
+\* `linked`: files that get their second ISO9660 name BEFORE the add_eltorito calls
+HybPrefixL(order, efi, mac, linked) ==
     <<AF("I", "h2049")>>
     \o (IF efi THEN <<AF("E", "e6000")>> ELSE <<>>)
     \o (IF mac THEN <<AF("M", "m100")>> ELSE <<>>)
+    \o (IF "I" \in linked THEN <<AL("I")>> ELSE <<>>)
+    \o (IF efi /\ "E" \in linked THEN <<AL("E")>> ELSE <<>>)
+    \o (IF mac /\ "M" \in linked THEN <<AL("M")>> ELSE <<>>)
     \o <<AE("I", Iso4Bit)>>
     \o (IF efi /\ mac /\ order = "ME" THEN <<AE("M", EfiSec), AE("E", EfiSec)>>
         ELSE IF efi /\ mac THEN <<AE("E", EfiSec), AE("M", EfiSec)>>
         ELSE IF efi THEN <<AE("E", EfiSec)>> ELSE <<>>)
+HybPrefix(order, efi, mac) == HybPrefixL(order, efi, mac, {})
 
 Geoms == {<<s, hd>> : s \in {1, 32, 63}, hd \in {1, 64, 255, 256}}
 GeomIdx(g) == (CASE g[1] = 1 -> 0 [] g[1] = 32 -> 1 [] g[1] = 63 -> 2) * 4
@@ -128,40 +140,40 @@ Scripts == IF "BOOT_SCRIPTS" \in DOMAIN IOEnv THEN JsonDeserialize(IOEnv.BOOT_SC
 Par ==
   CASE Profile = "script" ->
         [names |-> {}, blobs |-> {}, dirs |-> {}, boot |-> {}, hyb |-> {}, scopes |-> {},
-         prefixes |-> {Scripts[n] : n \in 1..Len(Scripts)}, maxent |-> 32, maxfiles |-> 99]
+         prefixes |-> {Scripts[n] : n \in 1..Len(Scripts)}, maxent |-> 32, maxfiles |-> 99, links |-> TRUE]
     [] Profile = "c11q" ->     \* exhaustive: every transition of the bounded graph
         [names |-> {"A", "I"}, blobs |-> {"s32", "h2049"}, dirs |-> {"D"},
          boot |-> {Plain, Iso4Bit, BS("noemul", 0, FALSE, TRUE, TRUE, 239, 1984), BS("bogus", 0, TRUE, FALSE, FALSE, 0, 0),
                    BS("noemul", 4, TRUE, FALSE, FALSE, 7, 0)},
-         hyb |-> {}, scopes |-> {"all", "iso"}, prefixes |-> {<<>>}, maxent |-> 2, maxfiles |-> 2]
+         hyb |-> {}, scopes |-> {"all", "iso"}, prefixes |-> {<<>>}, maxent |-> 2, maxfiles |-> 2, links |-> TRUE]
     [] Profile = "c11m" ->     \* media family, exhaustive
         [names |-> {"I", "K"}, blobs |-> {"f12", "mbrok", "mbrnosig", "mbrnopart", "mbrtwo", "mbrshort", "s64", "h4096"}, dirs |-> {},
          boot |-> {BS("floppy", 0, TRUE, FALSE, FALSE, 0, 0), BS("floppy", 2880, TRUE, FALSE, FALSE, 1, 0),
                    BS("hdemul", 0, TRUE, FALSE, FALSE, 2, 0), BS("hdemul", 0, FALSE, TRUE, FALSE, 0, 0),
                    BS("floppy", 5760, TRUE, FALSE, FALSE, 0, 0)},
-         hyb |-> {}, scopes |-> {"all"}, prefixes |-> {<<>>}, maxent |-> 2, maxfiles |-> 2]
+         hyb |-> {}, scopes |-> {"all"}, prefixes |-> {<<>>}, maxent |-> 2, maxfiles |-> 2, links |-> FALSE]
     [] Profile = "c11s" ->     \* simulation: the wider alphabet
         [names |-> {"A", "I", "K", "Z"}, blobs |-> {"s32", "s64", "h2048", "h2049", "h4096", "x5000", "mbrok"}, dirs |-> {"D", "Y"},
          boot |-> {Plain, Iso4, Iso4Bit, PlainBit, EfiSec, EfiNB, BS("noemul", 1, TRUE, TRUE, FALSE, 1, 0),
                    BS("noemul", 8, FALSE, FALSE, FALSE, 2, 0), BS("noemul", 0, TRUE, TRUE, TRUE, 239, 0),
                    BS("hdemul", 0, TRUE, FALSE, FALSE, 0, 0),
                    BS("hdemul", 0, TRUE, TRUE, FALSE, 0, 0)},
-         hyb |-> {}, scopes |-> {"all", "iso"}, prefixes |-> {<<>>}, maxent |-> 6, maxfiles |-> 4]
+         hyb |-> {}, scopes |-> {"all", "iso"}, prefixes |-> {<<>>}, maxent |-> 6, maxfiles |-> 4, links |-> TRUE]
     [] Profile = "c11t" ->     \* simulation, thorough: adds the other floppy sizes
         [names |-> {"A", "I", "K", "Z"}, blobs |-> {"s32", "s64", "h2048", "h2049", "h4096", "x5000", "mbrok", "f12", "f144", "f288"}, dirs |-> {"D", "Y"},
          boot |-> {Plain, Iso4, Iso4Bit, PlainBit, EfiSec, EfiNB, BS("noemul", 1, TRUE, TRUE, FALSE, 1, 0),
                    BS("noemul", 8, FALSE, FALSE, FALSE, 2, 0), BS("noemul", 0, TRUE, TRUE, TRUE, 239, 0),
                    BS("floppy", 0, TRUE, FALSE, FALSE, 0, 0),
                    BS("hdemul", 0, TRUE, FALSE, FALSE, 0, 0), BS("hdemul", 0, TRUE, TRUE, FALSE, 0, 0)},
-         hyb |-> {}, scopes |-> {"all", "iso"}, prefixes |-> {<<>>}, maxent |-> 8, maxfiles |-> 4]
+         hyb |-> {}, scopes |-> {"all", "iso"}, prefixes |-> {<<>>}, maxent |-> 8, maxfiles |-> 4, links |-> TRUE]
     [] Profile = "c11f" ->     \* the three diskette sizes, with and without boot info table (exhaustive, small)
         [names |-> {"I"}, blobs |-> {"f12", "f144", "f288"}, dirs |-> {"D"},
          boot |-> {BS("floppy", 0, TRUE, FALSE, FALSE, 0, 0), BS("floppy", 0, FALSE, TRUE, FALSE, 1, 0)},
-         hyb |-> {}, scopes |-> {"all"}, prefixes |-> {<<>>}, maxent |-> 2, maxfiles |-> 1]
+         hyb |-> {}, scopes |-> {"all"}, prefixes |-> {<<>>}, maxent |-> 2, maxfiles |-> 1, links |-> FALSE]
     [] Profile = "c11n" ->     \* many sections: 1..32 entries and the refusal of the 33rd
         [names |-> {"I", "K"}, blobs |-> {"h2049", "s32"}, dirs |-> {},
          boot |-> {Plain, BS("noemul", 0, TRUE, TRUE, TRUE, 0, 0)},
-         hyb |-> {}, scopes |-> {"all"}, prefixes |-> {<<AF("I", "h2049"), AF("K", "s32")>>}, maxent |-> 32, maxfiles |-> 2]
+         hyb |-> {}, scopes |-> {"all"}, prefixes |-> {<<AF("I", "h2049"), AF("K", "s32")>>}, maxent |-> 32, maxfiles |-> 2, links |-> FALSE]
     [] Profile = "c12g" ->     \* geometry grid: one add_isohybrid on the canned images
         [names |-> {}, blobs |-> {}, dirs |-> {}, boot |-> {},
          hyb |-> {GridSpec(g, "bios") : g \in Geoms} \cup {GridSpec(g, "efi") : g \in Geoms}
@@ -170,19 +182,24 @@ Par ==
                        HS(1, 0, 999, 32, 0, "none", "none", FALSE), HS(1, 0, 999, 32, 257, "none", "none", FALSE),
                        HS(1, 0, 23, 32, 64, "none", "none", TRUE), HS(1, 0, 999, 32, 64, "none", "no", TRUE)},
          scopes |-> {}, prefixes |-> {HybPrefix("ME", FALSE, FALSE), HybPrefix("ME", TRUE, FALSE), HybPrefix("ME", TRUE, TRUE),
-                                     HybPrefix("EM", TRUE, TRUE)}, maxent |-> 3, maxfiles |-> 3]
+                                     HybPrefix("EM", TRUE, TRUE),
+                                     \* the same images with second ISO9660 names made before add_eltorito
+                                     HybPrefixL("ME", FALSE, FALSE, {"I"}), HybPrefixL("ME", TRUE, TRUE, {"I", "E", "M"}),
+                                     HybPrefixL("EM", TRUE, TRUE, {"I"}), HybPrefixL("EM", TRUE, FALSE, {"E"})},
+         maxent |-> 3, maxfiles |-> 3, links |-> FALSE]
     [] Profile = "c12G" ->     \* thorough: the full product
         [names |-> {}, blobs |-> {}, dirs |-> {}, boot |-> {},
          hyb |-> FullGrid("bios") \cup FullGrid("efi") \cup FullGrid("mac"),
          scopes |-> {}, prefixes |-> {HybPrefix("ME", FALSE, FALSE), HybPrefix("ME", TRUE, FALSE), HybPrefix("ME", TRUE, TRUE),
-                                     HybPrefix("EM", TRUE, TRUE)}, maxent |-> 3, maxfiles |-> 3]
+                                     HybPrefix("EM", TRUE, TRUE)}, maxent |-> 3, maxfiles |-> 3, links |-> FALSE]
     [] Profile = "c12h" ->     \* histories that move the boot files around add_isohybrid
         [names |-> {"A", "Z"}, blobs |-> {"x5000"}, dirs |-> {"D"},
          boot |-> {Plain},
          hyb |-> {HS(1, 0, 999, 32, 64, "none", "none", FALSE), HS(2, 4, 131, 63, 255, "small", "yes", FALSE),
                   HS(1, 0, 999, 32, 64, "big", "none", TRUE)},
-         scopes |-> {}, prefixes |-> {HybPrefix("ME", FALSE, FALSE), HybPrefix("ME", TRUE, TRUE), HybPrefix("EM", TRUE, TRUE)},
-         maxent |-> 4, maxfiles |-> 5]
+         scopes |-> {}, prefixes |-> {HybPrefix("ME", FALSE, FALSE), HybPrefix("ME", TRUE, TRUE), HybPrefix("EM", TRUE, TRUE),
+                                     HybPrefixL("ME", FALSE, FALSE, {"I"}), HybPrefixL("EM", TRUE, TRUE, {"I", "M"})},
+         maxent |-> 4, maxfiles |-> 5, links |-> TRUE]
     [] Profile = "c12s" ->     \* simulation: longer mixed histories
         [names |-> {"A", "Z", "K"}, blobs |-> {"x5000", "s32", "h2048"}, dirs |-> {"D", "Y"},
          boot |-> {Plain, EfiSec, Iso4Bit},
@@ -190,8 +207,9 @@ Par ==
                   HS(1, 0, 999, 32, 64, "big", "none", TRUE), HS(4, 64, 0, 1, 1, "zero", "yes", TRUE),
                   HS(3, 0, 23, 1, 64, "none", "no", FALSE)},
          scopes |-> {}, prefixes |-> {HybPrefix("ME", FALSE, FALSE), HybPrefix("ME", TRUE, FALSE),
-                                     HybPrefix("ME", TRUE, TRUE), HybPrefix("EM", TRUE, TRUE), <<>>},
-         maxent |-> 5, maxfiles |-> 6]
+                                     HybPrefix("ME", TRUE, TRUE), HybPrefix("EM", TRUE, TRUE), <<>>,
+                                     HybPrefixL("ME", TRUE, FALSE, {"I", "E"}), HybPrefixL("ME", TRUE, TRUE, {"E", "M"})},
+         maxent |-> 5, maxfiles |-> 6, links |-> TRUE]
 
 \* ---- state ------------------------------------------------------------------
 NoElt == [on |-> FALSE, platform |-> 0, cat |-> "-", entries |-> <<>>]
@@ -258,17 +276,37 @@ RmEltorito(s) ==
 
 AddFile(s, n, b) ==
     IF Has(s, n) \/ n = CatName THEN No(s, "exists", FALSE)
-    ELSE Ok([s EXCEPT !.files = (n :> [blob |-> b, bit |-> FALSE, baked |-> FALSE, vis |-> "all"]) @@ s.files])
+    ELSE Ok([s EXCEPT !.files = (n :> [blob |-> b, bit |-> FALSE, baked |-> FALSE, vis |-> "all", alias |-> FALSE]) @@ s.files])
 
 Drop(files, n) == [m \in DOMAIN files \ {n} |-> files[m]]
 
+\* rm_file removes the link class: every name (alias included) in every namespace
 RmFile(s, n) ==
     IF n = CatName /\ s.elt.on THEN No(s, "elt_ref", FALSE)
     ELSE IF ~Has(s, n) \/ (Has(s, n) /\ s.files[n].vis # "all") THEN No(s, "missing", FALSE)
     ELSE IF Linked(s, n) THEN No(s, "elt_ref", FALSE)
     ELSE Ok([s EXCEPT !.files = Drop(s.files, n)])
 
-\* rm_hard_link: scope "iso" removes the ISO9660 name only, "all" the name in every namespace
+\* ---- second ISO9660 name (hard link) ---------------------------------------------
+\* add_hard_link(iso_old_path = the original ISO9660 name of n, iso_new_path = the alias name of n
+\* [, rr_name]): one alias per file, always made from the original name
+AddLink(s, n) ==
+    IF ~Has(s, n) \/ (Has(s, n) /\ s.files[n].vis # "all") THEN No(s, "missing", FALSE)
+    ELSE IF s.files[n].alias THEN No(s, "exists", FALSE)
+    ELSE Ok([s EXCEPT !.files[n].alias = TRUE])
+\* rm_hard_link(iso_path = the alias name): that name only
+RmLink(s, n) ==
+    IF ~Has(s, n) \/ (Has(s, n) /\ ~s.files[n].alias) THEN No(s, "missing", FALSE)
+    ELSE Ok([s EXCEPT !.files[n].alias = FALSE])
+\* rm_file(iso_path = the alias name): the whole class, like rm_file on the original name - also the
+\* Joliet/UDF names that are left when the original ISO9660 name is gone (vis = "sec")
+RmFileViaLink(s, n) ==
+    IF ~Has(s, n) \/ (Has(s, n) /\ ~s.files[n].alias) THEN No(s, "missing", FALSE)
+    ELSE IF Linked(s, n) THEN No(s, "elt_ref", FALSE)
+    ELSE Ok([s EXCEPT !.files = Drop(s.files, n)])
+
+\* rm_hard_link: scope "iso" removes the original ISO9660 name only (an alias stays), "all" every
+\* name of the file in every namespace, one rm_hard_link per name (the alias too)
 RmHardLink(s, n, scope) ==
     IF ~Has(s, n) \/ (Has(s, n) /\ s.files[n].vis # "all") THEN No(s, "missing", FALSE)
     ELSE LET nv == IF scope = "all" THEN "none" ELSE "sec"
@@ -326,6 +364,9 @@ Step(s, a) ==
     CASE a.a = "AddFile"      -> AddFile(s, a.n, a.blob)
       [] a.a = "RmFile"       -> RmFile(s, a.n)
       [] a.a = "RmHardLink"   -> RmHardLink(s, a.n, a.scope)
+      [] a.a = "AddLink"      -> AddLink(s, a.n)
+      [] a.a = "RmLink"       -> RmLink(s, a.n)
+      [] a.a = "RmFileViaLink" -> RmFileViaLink(s, a.n)
       [] a.a = "AddDir"       -> AddDir(s, a.d)
       [] a.a = "RmDir"        -> RmDir(s, a.d)
       [] a.a = "AddEltorito"  -> AddEltorito(s, a.f, a.spec)
@@ -346,6 +387,13 @@ Cands(s) ==
     {AF(n, b) : n \in Par.names \ DOMAIN s.files, b \in Par.blobs}
     \cup {[a |-> "RmFile", n |-> n] : n \in DOMAIN s.files \cup (IF s.elt.on THEN {CatName} ELSE {})}
     \cup {[a |-> "RmHardLink", n |-> n, scope |-> sc] : n \in {m \in DOMAIN s.files : s.files[m].vis = "all"}, sc \in Par.scopes}
+    \* second names: add_hard_link is offered on every file (refused for one that has its alias
+    \* already or has lost its original ISO9660 name); the alias is never the source of a call that
+    \* needs an existing path (add_eltorito, add_hard_link) - the only restriction of the alphabet
+    \cup (IF Par.links
+          THEN {AL(n) : n \in DOMAIN s.files}
+               \cup {[a |-> x, n |-> n] : x \in {"RmLink", "RmFileViaLink"}, n \in {m \in DOMAIN s.files : s.files[m].alias}}
+          ELSE {})
     \cup {[a |-> "AddDir", d |-> d] : d \in Par.dirs \ s.dirs}
     \cup {[a |-> "RmDir", d |-> d] : d \in s.dirs}
     \cup {AE(f, spec) : f \in {m \in DOMAIN s.files : s.files[m].vis = "all"}, spec \in Par.boot}
@@ -416,11 +464,12 @@ Expect(s) ==
      entries |-> [k \in 1..Len(s.elt.entries) |->
                     LET e == s.elt.entries[k] IN
                     [name |-> e.name, blob |-> e.blob, len |-> BlobInfo[e.blob].len, vis |-> e.vis,
+                     alias |-> e.vis # "none" /\ Has(s, e.name) /\ s.files[e.name].alias,
                      patched |-> Patched(s, e), loose |-> Patched(s, e) \/ Baked(s, e), media |-> e.media, count |-> e.count, ind |-> e.ind,
                      plat |-> e.plat, systype |-> e.systype, seg |-> e.seg]],
      files |-> {[name |-> n, blob |-> s.files[n].blob, len |-> BlobInfo[s.files[n].blob].len,
                  patched |-> s.files[n].bit, loose |-> s.files[n].bit \/ s.files[n].baked,
-                 vis |-> s.files[n].vis] : n \in DOMAIN s.files},
+                 vis |-> s.files[n].vis, alias |-> s.files[n].alias] : n \in DOMAIN s.files},
      dirs |-> s.dirs,
      hyb |-> s.hyb @@ [efik |-> IF s.elt.on THEN EfiK(s) ELSE 0, mack |-> IF s.elt.on THEN MacK(s) ELSE 0],
      dead |-> s.phase = "dead", gen |-> s.gen]
@@ -436,6 +485,19 @@ InvShape == /\ Len(st.elt.entries) <= 32
             /\ st.elt.on <=> Len(st.elt.entries) >= 1
             /\ (st.hyb.on => st.elt.entries[1].count = 4 /\ BlobInfo[st.elt.entries[1].blob].sig)
             /\ (st.hyb.on /\ st.hyb.mac => st.hyb.efi)
+\* a second name never outlives its file (it is a field of the file's record: rm_file on either name
+\* drops the record, rm_hard_link "all" too), and what the image must show for an entry that still has a
+\* name is what it must show for every name of its link class (blob, boot info table, alias)
+InvLinkClass ==
+    /\ \A n \in DOMAIN st.files : st.files[n].vis \in {"all", "sec"} /\ st.files[n].alias \in BOOLEAN
+    /\ \A k \in 1..Len(st.elt.entries) :
+          LET e == st.elt.entries[k]
+              x == Expect(st).entries[k] IN
+          IF e.vis = "none" THEN ~x.alias
+          ELSE /\ Has(st, e.name)
+               /\ \E f \in Expect(st).files :
+                     /\ f.name = e.name /\ f.blob = x.blob /\ f.alias = x.alias /\ f.vis = x.vis
+                     /\ f.patched = x.patched /\ f.loose = x.loose
 \* rm_eltorito undoes the first add_eltorito exactly, whatever its arguments
 InvRmEltoritoInverse ==
     (st.phase = "live" /\ ~st.elt.on) =>
@@ -446,11 +508,21 @@ Holds(f, name) == Assert(f, name)
 ActionProps ==
     /\ Holds(Profile # "script" /\ nref' = nref + 1 => [st' EXCEPT !.phase = "live"] = st, "RejectChangesNothing")
     /\ Holds(st'.gen >= st.gen, "GenMonotone")
+    \* making or removing a second name changes names only
+    /\ Holds((h'[Len(h')].act.a \in {"AddLink", "RmLink"} /\ h'[Len(h')].out = "ok") =>
+                /\ st'.elt = st.elt /\ st'.hyb = st.hyb /\ st'.dirs = st.dirs /\ DOMAIN st'.files = DOMAIN st.files
+                /\ \A n \in DOMAIN st.files : [st'.files[n] EXCEPT !.alias = FALSE] = [st.files[n] EXCEPT !.alias = FALSE],
+             "LinkChangesNamesOnly")
+    \* a file that El Torito refers to is never removed as a class, under whichever name
+    /\ Holds((h'[Len(h')].act.a \in {"RmFile", "RmFileViaLink"} /\ h'[Len(h')].out = "ok" /\ h'[Len(h')].act.n # CatName) =>
+                /\ ~Linked(st, h'[Len(h')].act.n) /\ ~Has(st', h'[Len(h')].act.n),
+             "ReferencedClassNotRemoved")
     /\ Holds(h'[Len(h')].act.a = "Reopen" => /\ st'.elt.on = st.elt.on /\ st'.hyb = st.hyb /\ st'.dirs = st.dirs
                                               /\ DOMAIN st'.files = DOMAIN st.files
                                               /\ \A n \in DOMAIN st.files : st'.files[n].blob = st.files[n].blob
                                                                             /\ st'.files[n].vis = st.files[n].vis
-                                                                            /\ st'.files[n].bit = st.files[n].bit,
+                                                                            /\ st'.files[n].bit = st.files[n].bit
+                                                                            /\ st'.files[n].alias = st.files[n].alias,
              "ReopenPreservesState")
 
 \* ---- behaviour output --------------------------------------------------------
